@@ -157,11 +157,11 @@ PROPS["C17"] = dict(
 PROPS["C13"] = dict(
     level="proof",
     technique="Lean 4 theorems about a model of PrivateKey::from_slice / PublicKey::from_slice (dalek's permissive decompress mirrored incl. sqrt_ratio_i, then recompress-and-compare) over ZMod p with a machine-checked primality certificate of p (Pratt/Lucas) and the p = 5 mod 8 square-root argument; group arithmetic: dalek vs a Lean reference curve that is PROVED to be the group law of the curve (Proofs/EdwardsGroup, EdwardsRef, EdwardsLawful)",
-    level_text="C13_secret_iff: accepted <-> 32 bytes and LE value < l. C13_public_iff (sound + complete): accepted <-> canonical encoding of a point on the curve (y < p, x recoverable with the encoded sign, no negative zero); completeness uses Nat.Prime p proved from a generated Pratt certificate. C13_public_eq_reference: the model accepts exactly what RFC 8032 strict decoding accepts, for every byte string. C13_rejects_noncanonical_y (all y in [p, 2^255)), C13_rejects_negative_zero (+ _bytes, _instantiated), C13_bytes_roundtrip (binary, hex, consensus), converses C13_from_str_sound, C13_from_str_only_64_hex_digits (+ C13_hex_digits), C13_consensus_decode_sound. POINT ARITHMETIC (from_private_key, +, -, *) delegates to curve25519-dalek and is compared on every run with the Lean reference curve (library vs reference: the operator model Model/KeyOps.lean is its own only in the operand path - from_slice, the permissive point() of the stored bytes, PANIC - and then calls the reference's own Ed.add / Ed.smul / Ed.encodePt, so model side and spec side of c13_add/sub/smul/pub_of cannot differ on accepted operands). What that reference computes is proved: C13_curve_points_form_a_group states, coordinate by coordinate, that the points of EdPoint are exactly the solutions of -x^2+y^2 = 1+d*x^2*y^2 over GF(2^255-19), that + is the Edwards addition law with non-vanishing denominators, 0 = (0,1), -(x,y) = (-x,y), that - and n-fold multiples are derived from them, and that these operations satisfy the abelian-group axioms; C13_group_law ties the executable reference to these operations, C13_base_point_order (order of G exactly l), C13_encoding_bijective (encoding injective, decoding inverts it, accepted byte strings = encodings = strings that decode), C13_dec_spec (what decoding means: y = low 255 bits, parity of x = bit 255), C13_identity_encoding. On the operator model, byte level: C13_{add,sub,smul,pub_of}_bytes (decode, group operation, encode; result accepted), C13_operators_no_panic, C13_pub_of_injective, the identities of the statement C13_pub_add_bytes, C13_smul_pub_bytes, C13_add_sub_bytes ((P+Q)-Q = P), C13_add_sub (P-P = 0, P+0 = 0+P = P-0 = P with 0 the key 01 00..00), C13_smul_distrib (a(P+Q) = aP+aQ), and in the group C13_pub_add, C13_smul_smul, C13_pub_injective. SCALAR ARITHMETIC: the model transcribes dalek's Scalar52 add (one conditional subtraction) and mul (two Montgomery reductions, R = 2^260) on integers; C13_scalar_ops: on ACCEPTED keys (and n < 256) they are + and * modulo l and the result is an accepted key (false without the hypotheses). Curve constants: d, sqrt(-1), G pinned by their defining equations (C13_d_is_ed25519, C13_sqrtm1_is_root_of_minus_one, C13_G_is_ed25519); C13_p_l_are_ed25519 only restates the literals (l is pinned by C13_base_point_order). The text, Display and consensus forms have an independent spec side (accepted iff RFC 8032 / < l).",
+    level_text="C13_secret_iff: accepted <-> 32 bytes and LE value < l. C13_public_iff (sound + complete): accepted <-> canonical encoding of a point on the curve (y < p, x recoverable with the encoded sign, no negative zero); completeness uses Nat.Prime p proved from a generated Pratt certificate. C13_public_eq_reference: the model accepts exactly what RFC 8032 strict decoding accepts, for every byte string. C13_rejects_noncanonical_y (all y in [p, 2^255)), C13_rejects_negative_zero (+ _bytes, _instantiated), C13_bytes_roundtrip (binary, hex, consensus), converses C13_from_str_sound, C13_from_str_only_64_hex_digits (+ C13_hex_digits), C13_consensus_decode_sound. POINT ARITHMETIC (from_private_key, +, -, *) delegates to curve25519-dalek and is compared on every run with the Lean reference curve (the operator model Model/KeyOps.lean has its own operand path - from_slice, the permissive point() of the stored bytes, PANIC - and its own + / - transcribed from dalek's Niels-form addition (dalekAdd, dalekSub, proved equal to Ed.add / Ed.sub); for scalar multiplication, from_private_key and the final compression it calls the reference's own Ed.smul / Ed.encodePt, so for c13_smul / c13_pub_of the comparison is library-vs-reference only). What that reference computes is proved: C13_curve_points_form_a_group states, coordinate by coordinate, that the points of EdPoint are exactly the solutions of -x^2+y^2 = 1+d*x^2*y^2 over GF(2^255-19), that + is the Edwards addition law with non-vanishing denominators, 0 = (0,1), -(x,y) = (-x,y), that - and n-fold multiples are derived from them, and that these operations satisfy the abelian-group axioms; C13_group_law ties the executable reference to these operations, C13_base_point_order (order of G exactly l), C13_encoding_bijective (encoding injective, decoding inverts it, accepted byte strings = encodings = strings that decode), C13_dec_spec (what decoding means: y = low 255 bits, parity of x = bit 255), C13_identity_encoding. On the operator model, byte level: C13_{add,sub,smul,pub_of}_bytes (decode, group operation, encode; result accepted), C13_operators_no_panic, C13_pub_of_injective, the identities of the statement C13_pub_add_bytes, C13_smul_pub_bytes, C13_add_sub_bytes ((P+Q)-Q = P), C13_add_sub (P-P = 0, P+0 = 0+P = P-0 = P with 0 the key 01 00..00), C13_smul_distrib (a(P+Q) = aP+aQ), and in the group C13_pub_add, C13_smul_smul, C13_pub_injective. SCALAR ARITHMETIC: the model transcribes dalek's Scalar52 add (one conditional subtraction) and mul (two Montgomery reductions, R = 2^260) on integers; C13_scalar_ops: on ACCEPTED keys (and n < 256) they are + and * modulo l and the result is an accepted key (false without the hypotheses). Curve constants: d, sqrt(-1), G pinned by their defining equations (C13_d_is_ed25519, C13_sqrtm1_is_root_of_minus_one, C13_G_is_ed25519); C13_p_l_are_ed25519 only restates the literals (l is pinned by C13_base_point_order). The text, Display and consensus forms have an independent spec side (accepted iff RFC 8032 / < l).",
     level_note="Trusted: Lean kernel (+ Mathlib for ZMod / lucas_primality); model/Rust correspondence of acceptance differential (incl. all 38 non-canonical-y encodings, both negative-zero encodings, the 8 small-order points); dalek's field/point arithmetic is a dependency: modelled by Ref/Ed25519.lean (proved to be the Edwards group law) and tied to it differentially.",
     design_ref="DESIGN.md §6 C13",
     rule="random 32-byte strings, all non-canonical-y and negative-zero encodings, small-order points and sign flips, random valid points / invalid y, boundary scalars; byte patterns ([d0>=ed, ff x29, d30, 7f|ff] for all d0 and a sweep of d30, all-ff with one byte off, runs of ff / 00 from byte i to j); arithmetic on random and special operands, P-Q / Q-P / P+Q with Q every small-order point in each operand form; the three consensus entry points (deserialize, deserialize_partial, consensus_decode) on scalars around and above l.",
-    assumptions=["curve25519-dalek computes the same functions as Ref/Ed25519.lean (differential tie, library vs reference; the point-operator model reuses the reference arithmetic); that Ref/Ed25519.lean is the group law is proved", "dalek's limb-level Scalar52 code computes what its integer-level transcription (Model/KeyOps sc52Add / sc52Mul) computes (differential tie)"],
+    assumptions=["curve25519-dalek computes the same functions as Ref/Ed25519.lean (differential tie; the point-operator model reuses the reference's scalar multiplication and compression, its + / - are a separate transcription of dalek's); that Ref/Ed25519.lean is the group law is proved", "dalek's limb-level Scalar52 code computes what its integer-level transcription (Model/KeyOps sc52Add / sc52Mul) computes (differential tie)"],
     gen_items=[],
 )
 
